@@ -29,7 +29,10 @@ RULE = ('history = 2-14 generated operations of which about a third are bulk_wri
         'contains a failing request that is not the last; distinct = by hash of the history')
 ASSUMPTIONS = [
     'pymongo is absent: the harness supplies plain request objects with _add_to_bulk',
-    'TTL-free histories; positional $ paths unmodelled',
+    'TTL-free histories',
+    'these histories draw no positional $ paths (the positional operator is modelled '
+    'and judged under C02); a step the model '
+    'answers unmodelled for cuts the history there',
 ]
 
 known_labels = {e['id'] for e in common.load_known(ID) if e.get('status') == 'known'}
